@@ -1073,12 +1073,12 @@ package gogen
 
 //@ func ComparableTo
 //@ prop C05
-//@ requires pkg != nil && varg != nil && targ != nil && varg.Type != nil && targ.Type != nil && typeis(varg.Type, *types.Basic) && typeis(targ.Type, *types.Basic) && pkg.implicitCast == nil
-//@ requires ValidBasic(varg.Type) && ValidBasic(targ.Type) && OperandWfFor(varg.Type, varg) && OperandWfFor(targ.Type, targ)
-//@ requires imp(varg.Type.(*types.Basic).Kind() == 22, varg.CVal != nil) && imp(targ.Type.(*types.Basic).Kind() == 22, targ.CVal != nil)
-//@ requires varg.Type.(*types.Basic).Kind() != 25 && targ.Type.(*types.Basic).Kind() != 25
+//@ requires pkg != nil && varg != nil && targ != nil && varg.Type != nil && targ.Type != nil && pkg.implicitCast == nil
+//@ requires CmpBasicDomain(varg, targ) || CmpSameUnderlying(varg, targ)
 //@ assigns varg.Val, varg.Type, targ.Val, targ.Type
-//@ ensures result == old(GoComparableBasic(varg.Type.(*types.Basic).Kind(), targ.Type.(*types.Basic).Kind(), varg, targ))
+//@ ensures imp(old(CmpBasicDomain(varg, targ)), result == old(GoComparableBasic(varg.Type.(*types.Basic).Kind(), targ.Type.(*types.Basic).Kind(), varg, targ)))
+//@ ensures imp(old(CmpSameUnderlying(varg, targ)) && (typeis(old(varg.Type).Underlying(), *types.Pointer) || typeis(old(varg.Type).Underlying(), *types.Chan) || typeis(old(varg.Type).Underlying(), *types.Interface) || typeis(old(varg.Type).Underlying(), *types.Basic)), result)
+//@ ensures imp(old(CmpSameUnderlying(varg, targ)) && (typeis(old(varg.Type).Underlying(), *types.Slice) || typeis(old(varg.Type).Underlying(), *types.Map) || typeis(old(varg.Type).Underlying(), *types.Signature)), !result)
 
 
 // ---------------------------------------------------------------------------
